@@ -448,7 +448,10 @@ class Parser:
     def _rvalue_expr(self, dest, code_gen):
         if not ExpressionParser(self).expression():
             return False
-        code_gen.pop(dest)
+        # Braces inside an expression: the value is an operand of the
+        # enclosing one and stays on the stack.
+        if dest is not OpCode.PUSH:
+            code_gen.pop(dest)
         return True
 
     def _at_rvalue(self, include_reg=True) -> bool:
